@@ -15,6 +15,7 @@ class LawfulTransc (α : Type) [Field α] [LinearOrder α] [IsStrictOrderedRing 
   abs_eq : ∀ x : α, Transc.abs x = |x|
   exp_pos : ∀ x : α, 0 < Transc.exp x
   pow_neg_one : ∀ x : α, Transc.pow x (-1) = x⁻¹
+  pow_natCast' : ∀ (x : α) (n : ℕ), Transc.pow x (n : α) = x ^ n
   one_le_exp : ∀ x : α, 0 ≤ x → 1 ≤ Transc.exp x
 
 noncomputable instance : Transc ℝ where
@@ -30,6 +31,7 @@ instance : LawfulTransc ℝ where
   abs_eq _ := rfl
   exp_pos x := Real.exp_pos x
   pow_neg_one x := Real.rpow_neg_one x
+  pow_natCast' x n := Real.rpow_natCast x n
   one_le_exp x hx := Real.one_le_exp hx
 
 section
